@@ -358,9 +358,17 @@ func TestC14Socket(t *testing.T) {
 				stalled++
 			}
 		}
+		// enough heartbeats first that the re-requests are written with the platform serials 121..127: 0x7d and 0x7e among them
+		before := 1 + len(trs) - stalled // frames the server has written so far: the hello reply and one reply per completed transfer
+		var beats []byte
+		for b := 0; before < 120; b++ {
+			beats = append(beats, frame(id, 0x0002, uint16(3000+b), nil)...)
+			before++
+		}
+		steps = append(steps, Step{Op: "write", Hex: beats}, Step{Op: "wait_frames", N: before, DeadlineMs: 5000})
 		steps = append(steps, Step{Op: "pause", PauseUs: 5_400_000}, Step{Op: "write", Hex: frame(id, 0x0002, 2, nil)},
-			Step{Op: "wait_frames", N: 2 + stalled, DeadlineMs: 4000}, Step{Op: "write", Hex: frame(id, 0x0002, sentinelSerial, nil)},
-			Step{Op: "wait_frames", N: 3 + stalled, DeadlineMs: 4000}, Step{Op: "close", Mode: "fin"})
+			Step{Op: "wait_frames", N: before + 1 + stalled, DeadlineMs: 4000}, Step{Op: "write", Hex: frame(id, 0x0002, sentinelSerial, nil)},
+			Step{Op: "wait_frames", N: before + 2 + stalled, DeadlineMs: 4000}, Step{Op: "close", Mode: "fin"})
 		// before that, twelve other terminals abandon a transfer (packet 1 of 3, then they hang up); and next to the main
 		// terminal four fresh ones only send heartbeats around the same 5.4 s of silence: nothing of the abandoned
 		// transfers may reach a later connection (no re-request for a transfer that connection never started)
